@@ -55,6 +55,14 @@ def gen_rim_graph(rnd):
     for k in range(rnd.choice([2, 4])):
         inner.append(G.destination(c, rnd.uniform(0, 360), 0.9 * r))
     g, nid = {}, 1
+    # long edges whose end points are BOTH outside the radius and whose interior passes through the disc (chords between points at
+    # 1.1 r, 60 to 120 degrees apart): the nearest point is an interior foot, far from either end
+    for _ in range(rnd.choice([1, 2])):
+        th = rnd.uniform(0, 360)
+        a_, b_ = G.destination(c, th, 1.1 * r), G.destination(c, th + rnd.choice([60.0, 90.0, 120.0]), 1.1 * r)
+        g[nid] = (a_, [nid + 1])
+        g[nid + 1] = (b_, [nid])
+        nid += 2
     for p in inner:
         b = G.bearing(c, p) if hasattr(G, 'bearing') else 0.0
         out = (p[0] + (p[0] - c[0]) * 0.2, p[1] + (p[1] - c[1]) * 0.2)
@@ -286,7 +294,7 @@ def case_C11(seed):
                     viol.append((key, f"{nm}.edges_closeto({loc}, {r}, {max_elmt}) = {[(round(t[0], 6), t[1], t[2]) for t in ge]}, expected {[(round(t[0], 6), t[1], t[2]) for t in xe]}",
                                  {'graph': {str(k): [list(v[0]), v[1]] for k, v in g.items()}, 'scale': scale, 'loc': list(loc), 'radius': r, 'max_elmt': max_elmt}))
                 else:
-                    if use_latlon and not viol:
+                    if use_latlon and not any('wrong-distance' in v_[0] for v_ in viol):
                         # the distances / projections the query reports, against the independent 3-D reference (not the library's
                         # own metric): 12 cm + 2e-6 relative, as in C14 - also for edges of tens of kilometres
                         from rtc import geo_ref as G_
@@ -309,7 +317,7 @@ def case_C11(seed):
         sm.db.close()
     finally:
         shutil.rmtree(d, ignore_errors=True)
-    return {'nontrivial': nontriv, 'violations': viol[:2], 'sample': {'scale': scale, 'graph': {str(k): [list(v[0]), v[1]] for k, v in g.items()}}}
+    return {'nontrivial': nontriv, 'violations': viol[:3], 'sample': {'scale': scale, 'graph': {str(k): [list(v[0]), v[1]] for k, v in g.items()}}}
 
 
 # ================================================================================================== abstract view
